@@ -110,6 +110,7 @@ func runC07(p *core.Program, r *core.Report) {
 	// R8: "each generator that rendered something has its file": what was rendered - also by deferred callbacks - is
 	// handed to the writer (C01.R5: hand-over on every path, emptiness tested after the last rendering of the iteration)
 	chainRules(p, r, "R8", "C01", []string{"C01.R5"}, "a non-empty file is always handed to the writer, emptiness is tested after the last rendering")
+	c07R9(p, r, pl)
 }
 
 var filenameFormat = regexp.MustCompile(`^%s\.%s\.go$`)
@@ -751,4 +752,98 @@ func c07R6(p *core.Program, r *core.Report, pl *pipeline) {
 			return true
 		})
 	}
+}
+
+// c07R9: "afterwards the directory holds exactly the files of the generators that rendered something": once the previous
+// outputs of the package have been listed, every successful way out of the per-package function passes the loop that
+// removes what is left of that list (or the edge on which the list is known to be empty). An early success return between
+// the listing and the removal - a shortcut for "nothing to do" - leaves stale outputs behind.
+func c07R9(p *core.Program, r *core.Report, pl *pipeline) {
+	const rule = "R9"
+	r.Floor(rule, 1)
+	f := pl.pkgExec
+	info := f.Info()
+	g := graph(f)
+	// the removal loop: a range statement whose body removes files
+	var loop *ast.RangeStmt
+	var stale *types.Var
+	ast.Inspect(f.Body, func(n ast.Node) bool {
+		rs, ok := n.(*ast.RangeStmt)
+		if !ok {
+			return true
+		}
+		for _, c := range core.Calls(rs.Body, true) {
+			switch core.CalleeName(info, c) {
+			case "os.RemoveAll", "os.Remove":
+				if v := core.VarOf(info, rs.X); v != nil && isMapType(v.Type()) {
+					loop, stale = rs, v
+				}
+			}
+		}
+		return true
+	})
+	if loop == nil || stale == nil {
+		r.Anchor(rule, "the loop of the per-package function that removes the remaining previous outputs")
+		return
+	}
+	// the listing starts where the list is made
+	defs := core.DefsOf(info, f.Body, stale)
+	if len(defs) != 1 || defs[0].Stmt == nil {
+		r.Anchor(rule, "single definition of the list of previous outputs")
+		return
+	}
+	start := g.PointOf(defs[0].Stmt)
+	isNilResult := func(ret *ast.ReturnStmt) bool {
+		if len(ret.Results) == 0 {
+			return true // named result: judged as success unless it was assigned (conservative: success)
+		}
+		if len(ret.Results) != 1 {
+			return false
+		}
+		return constNil(info, ret.Results[0])
+	}
+	at, escapes := g.Reach(start, false, cfgxQuery{
+		Target: func(q cfgxPoint) bool {
+			if ret, ok := q.Node().(*ast.ReturnStmt); ok {
+				return isNilResult(ret)
+			}
+			return false
+		},
+		Cut: func(q cfgxPoint) bool {
+			return q.B.Stmt == ast.Stmt(loop) && (q.B.Kind == kindRangeLoop || q.B.Kind == kindRangeBody)
+		},
+		CutEdge: func(b *cfgBlock, k int) bool {
+			// the edge on which the list is empty: nothing to remove
+			if len(b.Succs) != 2 || len(b.Nodes) == 0 {
+				return false
+			}
+			e, ok := b.Nodes[len(b.Nodes)-1].(ast.Expr)
+			if !ok {
+				return false
+			}
+			for _, a := range cfgxAtoms(e, k == 0) {
+				// len(stale) > 0 false, len(stale) == 0 true, …
+				x, op, c, ok := cmpConst(info, a.Cond)
+				if !ok || a.Tag != nil {
+					continue
+				}
+				lc, isCall := ast.Unparen(x).(*ast.CallExpr)
+				if !isCall || core.CalleeName(info, lc) != "builtin.len" || len(lc.Args) != 1 || core.VarOf(info, lc.Args[0]) != stale {
+					continue
+				}
+				if !a.Val {
+					op = negate(op)
+				}
+				if (op == token.EQL && c == 0) || (op == token.LEQ && c == 0) || (op == token.LSS && c == 1) {
+					return true
+				}
+			}
+			return false
+		},
+	})
+	why := ""
+	if escapes {
+		why = "the per-package function can return successfully at " + p.Pos(at.Node().Pos()) + " after the previous outputs were listed and before the rest of the list is removed: outputs of generators that rendered nothing this time stay in the directory"
+	}
+	r.Check(!escapes, rule, f, "every successful return passes the removal of the remaining previous outputs", loop.Pos(), "must-pass-through from the listing to every `return nil`", why)
 }
